@@ -208,6 +208,12 @@ theorem dedupMap_unfixed_single : ∀ (cs : List Chunk) (m : List (Key × Chunk)
     rw [insertByField_single c m i f hc]
     exact dedupMap_unfixed_single r _ (fun d hd => h d (List.mem_cons_of_mem _ hd))
 
+theorem chain_lbls' (fixed : Bool) (first : Series) (rest : List Series) :
+    (chain fixed first rest).lbls = first.lbls := by
+  unfold chain
+  simp only
+  split <;> rfl
+
 /-! ### the chunk sort -/
 
 /-- ordered by (MinTime, MaxTime) -/
